@@ -271,6 +271,49 @@ def run_job(job):
                 w["login"].update({"cfin": bx(lg.cfin), "session_key_c": bx(lg.session_key_c), "session_key_s": bx(lg.session_key_s),
                                    "export_key": bx(lg.export_key), "server_s_pk": bx(lg.server_s_pk)})
             bad = check_world(m, w)
+            # the server's answer to requests whose key share is NOT an honestly derived key (any valid public key is a legal
+            # KE1): Curve25519 u-coordinates on the twist or with a small-order component, random points elsewhere
+            if not fake and not bad and wi % 2 == 0:
+                creq_b = w["login"]["creq"]
+                foreign = []
+                if sz.ke == "x25519":
+                    from .refmodel import c25519 as _c
+                    foreign += _c.x_torsion_variants(creq_b[sz.noe + 32:])[:2]
+                    while len(foreign) < 4:
+                        u = bytes(rnd.randrange(256) for _ in range(32))
+                        if m.ke.valid_pk(u):
+                            foreign.append(u)
+                else:
+                    foreign.append(m.ke.pk_from_sk(m.ke.G.encode_scalar(rnd.randrange(1, m.ke.G.order))))
+                record = (w["reg"]["rupl"][:m.npk], w["reg"]["rupl"][m.npk:m.npk + m.nh], w["reg"]["rupl"][m.npk + m.nh:])
+                setup_b = w["setup"]
+                for fk in foreign:
+                    q = creq_b[:sz.noe + 32] + fk
+                    d = s.de("creq", q, out="aq")
+                    if not d.ok:
+                        viol.append({"sig": "C09 a valid public key is refused as KE1 key share", "what": "%s: %s: %s" % (su, fk.hex(), d.err)})
+                        continue
+                    r = s.cmd("slogin_start", rng=rng, setup="S", file=file_h, req="aq", cred=cred[1], ctx=ctx[1], id_u=idu[1], id_s=ids_[1], out_state="asl", out_msg="acr")
+                    evals += 2
+                    if r.failed:
+                        viol.append({"sig": "C09 ServerLogin::start failed on a valid foreign key share", "what": "%s: %s" % (su, dict(r))})
+                        continue
+                    ad = draws_of((wseed, b""), r)
+                    cr = bx(r.msg)
+                    o1 = sz.noe
+                    o2 = sz.noe + 32 + sz.masked
+                    mnonce, snonce, sepk = cr[o1:o1 + 32], cr[o2:o2 + 32], cr[o2 + 32:o2 + 32 + sz.npk]
+                    sesk = find_keypair(m, ad, sepk)
+                    if sesk is None:
+                        continue
+                    ke2, state_m, _ = m.ke2(setup_b[:m.nh], cred[1], setup_b[m.nh:m.nh + m.nsk], w["setup_pk"], record, q, mnonce, snonce, sesk, sepk, ctx[1] or b"", idu[1], ids_[1])
+                    stats["foreign_key_share_answers"] = stats.get("foreign_key_share_answers", 0) + 1
+                    if ke2 != cr:
+                        viol.append({"sig": "C09 KE2 for a request with a non-honest (but valid) key share differs from the specification",
+                                     "what": "%s: client_e_pk %s: implementation %s model %s" % (su, fk.hex(), r.msg[-2 * m.nh:], ke2.hex()[-2 * m.nh:])})
+                    elif bx(r.state) != state_m:
+                        viol.append({"sig": "C09 server pending state for a request with a non-honest key share differs from the specification",
+                                     "what": "%s: client_e_pk %s" % (su, fk.hex())})
             case = {"suite": su, "world": wi, "pw": pw[0], "cred": cred[0], "id_u": idu[0], "id_s": ids_[0], "ctx": ctx[0],
                     "fake_record": fake, "wire": wire, "ksf": ksfn}
             for what, got, want in bad:
